@@ -380,6 +380,32 @@ class Check:
         return 1 if self.violations else 0
 
 
+def suite_events(chk, module):
+    """Leg S: run the repository's own test-suite under the passive tracer and return the recorded events of one
+    trace module (deduplicated)."""
+    out = os.path.join(chk.dir, "suite_trace")
+    shutil.rmtree(out, ignore_errors=True)
+    env = dict(os.environ, BCVERIF_SUITE_OUT=out, PYTHONPATH=os.path.join(VERIF, "harness"), PYTHONDONTWRITEBYTECODE="1")
+    p = subprocess.run([sys.executable, "-m", "pytest", "-q", "-p", "no:cacheprovider", "-p", "bcverif.suite_tracer", "-W",
+                        "ignore", "-x", "--co", "-q"], cwd=REPO, env=env, stdout=subprocess.PIPE, stderr=subprocess.STDOUT,
+                       text=True, timeout=900) if False else None
+    p = subprocess.run([sys.executable, "-m", "pytest", "-q", "-p", "no:cacheprovider", "-p", "bcverif.suite_tracer", "-W",
+                        "ignore"], cwd=REPO, env=env, stdout=subprocess.PIPE, stderr=subprocess.STDOUT, text=True,
+                       timeout=1800)
+    tail = p.stdout.strip().splitlines()[-1] if p.stdout.strip() else ""
+    chk.extra["suite_run"] = tail
+    path = os.path.join(out, module + ".ndjson")
+    evs, seen = [], set()
+    if os.path.exists(path):
+        for line in open(path):
+            if line in seen:
+                continue
+            seen.add(line)
+            evs.append(json.loads(line))
+    chk.extra["suite_events"] = len(evs)
+    return evs
+
+
 def _load_findings():
     p = os.path.join(VERIF, "known_findings.json")
     if not os.path.exists(p):
